@@ -354,6 +354,12 @@ def EXPECTED_BRANCHES(ctx):
             exp += ['leaf/fallback/' + leaf, 'leaf/blas/' + leaf]
     for op in ('iaddE', 'isubE', 'imulE', 'idivE'):
         exp += ['stmt/bcast/op={}/own-part'.format(op), 'stmt/bcast/op={}/external'.format(op)]
+    for op in ('addE', 'subE', 'mulE', 'divE', 'rsubE', 'rdivE'):
+        exp += ['stmt/bcasto/{}/{}/{}'.format(op, o, sh) for o in ('own-part', 'external')
+                for sh in ('distinct', 'shared')]
+    for f in ('mul', 'div'):
+        for alias in ALIASES:
+            exp += ['pmuldiv/{}/{}/{}'.format(f, alias, k) for k in ('tensor', 'product')]
     return exp
 
 
@@ -928,6 +934,58 @@ BCAST_OP = {'b_iadd': 'iaddE', 'b_isub': 'isubE', 'b_imul': 'imulE', 'b_idiv': '
             'bp_iadd': 'iaddE', 'bp_isub': 'isubE', 'bp_imul': 'imulE', 'bp_idiv': 'idivE'}
 
 
+BCASTO_OP = {'b_add': 'addE', 'b_radd': 'addE', 'b_sub': 'subE', 'b_rsub': 'rsubE',
+             'b_mul': 'mulE', 'b_rmul': 'mulE', 'b_div': 'divE', 'b_rdiv': 'rdivE',
+             'bp_add': 'addE', 'bp_radd': 'addE', 'bp_sub': 'subE', 'bp_rsub': 'rsubE',
+             'bp_mul': 'mulE', 'bp_div': 'divE', 'bp_rdiv': 'rdivE'}
+
+
+def distinct_parts(x):
+    """Parts of a power-space element as (distinct part objects, index of each part in them):
+    identity, not value, decides (P.element([a, a, b]) has two distinct part objects)."""
+    distinct, ids = [], []
+    for part in x:
+        for k, q in enumerate(distinct):
+            if q is part:
+                ids.append(k)
+                break
+        else:
+            distinct.append(part)
+            ids.append(len(distinct) - 1)
+    return distinct, ids
+
+
+def bcasto_extra_cases(ctx):
+    """Out-of-place broadcasting beyond the zoo: three parts, SHARED part objects
+    (P.element([a, a, b])), the operand being a shared / the last / an external part."""
+    import odl
+    rng = ctx.rng
+    ops = {name: (kind, action, spec) for name, kind, action, spec in elem_ops()}
+    bases = [('power3', odl.rn(4)), ('cpower3', odl.cn(2)), ('power3_f32_104', odl.rn(104, dtype='float32')),
+             ('dpower3', odl.uniform_discr(0, 1, 3))]
+    if ctx.quick:
+        bases = bases[:2] + [bases[rng.randrange(2, 4)]]
+    for bname, base in bases:
+        P = odl.ProductSpace(base, 3)
+        for name in sorted(BCASTO_OP):
+            kind, action, spec = ops[name]
+            if not name.startswith('b_'):
+                continue
+            for shared in (False, True):
+                for own in (False, True):
+                    nzx = '/' in kind and kind.startswith('x/')
+                    nzy = kind.endswith('/')
+                    a = rand_elem(base, rng, nonzero=nzx or (own and nzy))
+                    b = rand_elem(base, rng, nonzero=nzx or (own and nzy))
+                    cc = rand_elem(base, rng, nonzero=nzx or (own and nzy))
+                    parts = [a, a, b] if shared else [a, b, cc]
+                    rng.shuffle(parts)
+                    x = P.element(parts)
+                    y = rng.choice(parts) if own else rand_elem(base, rng, nonzero=nzy)
+                    yield dict(kind='elem', space=bname, op=name, okind=kind, spec=spec, x=x, y=y,
+                               c=0, d=0, action=action, sp=P, shared=shared)
+
+
 def lv(v):
     return ','.join((fs(p[0]) if p[1] == 0 else fs(p[0]) + ':' + fs(p[1])) for p in v) or '-'
 
@@ -1017,6 +1075,104 @@ def run_plincomb_case(c):
     for key, i in num.items():
         postl[i] = post[key]
     return line, status, postl, problems
+
+
+# ---------------------------------------------------------------------------
+# space.multiply / space.divide with out=, every identity alias pattern, tensor and (nested)
+# product spaces: NumpyTensorSpace._multiply/_divide, ProductSpace._multiply/_divide
+# (Model/ElemOps.lean::pmultiply/pdivide; a tensor space is the one-leaf case)
+
+def pmuldiv_cases(ctx):
+    import odl
+    rng = ctx.rng
+    for sname, space in space_zoo(ctx):
+        is_int = np.issubdtype(base_dtype(space), np.integer)
+        for f in ('mul', 'div'):
+            if f == 'div' and is_int:
+                continue   # true division is not closed on integer spaces (NumPy refuses out=)
+            for alias, ids in ALIASES.items():
+                for rep in range(1 if ctx.quick else 4):
+                    elems = {}
+                    for bid in sorted(set(ids)):
+                        elems[bid] = rand_elem(space, rng, nonzero=(f == 'div' and bid == ids[1]))
+                    yield dict(kind='pmuldiv', space=sname, f=f, alias=alias, elems=elems, ids=ids,
+                               sp=space, product=isinstance(space, odl.ProductSpace))
+
+
+def run_pmuldiv_case(c):
+    space, ids, elems = c['sp'], c['ids'], c['elems']
+    x1, x2, out = elems[ids[0]], elems[ids[1]], elems[ids[2]]
+    leaves = {bid: leaf_parts(e) for bid, e in elems.items()}
+    nleaf = len(leaves[ids[0]])
+    order = sorted(elems)
+    num = {(bid, k): i * nleaf + k for i, bid in enumerate(order) for k in range(nleaf)}
+    pre = {key: exact_list(leaves[key[0]][key[1]].asarray()) for key in num}
+    bufs = [None] * len(num)
+    for key, i in num.items():
+        bufs[i] = lv(pre[key])
+    line = 'pmuldiv f={} xs={} ys={} os={} bufs={}'.format(
+        c['f'],
+        ','.join(str(num[(ids[0], k)]) for k in range(nleaf)),
+        ','.join(str(num[(ids[1], k)]) for k in range(nleaf)),
+        ','.join(str(num[(ids[2], k)]) for k in range(nleaf)), '|'.join(bufs))
+    try:
+        fn = space.multiply if c['f'] == 'mul' else space.divide
+        ret = fn(x1, x2, out=out)
+        status = 'ok'
+    except Exception as e:  # noqa
+        status = 'err:' + type(e).__name__ + ':' + str(e)[:120]
+        ret = None
+    problems = []
+    post = None
+    if status != 'ok':
+        problems.append(status)
+    else:
+        post = {key: exact_list(leaves[key[0]][key[1]].asarray()) for key in num}
+        if ret is not out:
+            problems.append('{} did not return out'.format(c['f']))
+        spec = 'mul' if c['f'] == 'mul' else 'div'
+        for k in range(nleaf):
+            exp = oracle_elem(spec, pre[(ids[0], k)], pre[(ids[1], k)], None, None)
+            if post[(ids[2], k)] != exp:
+                bad = [i for i, (u, v) in enumerate(zip(post[(ids[2], k)], exp)) if u != v]
+                problems.append('part {} of out != x1 {} x2 entry-wise at {} entries, first {}: got {} '
+                                'expected {}'.format(k, '*' if spec == 'mul' else '/', len(bad), bad[0],
+                                                     post[(ids[2], k)][bad[0]], exp[bad[0]]))
+        for key in num:
+            if key[0] != ids[2] and post[key] != pre[key]:
+                problems.append('operand part {} modified'.format(key))
+    postl = None
+    if post is not None:
+        postl = [None] * len(num)
+        for key, i in num.items():
+            postl[i] = post[key]
+    return line, status, postl, problems
+
+
+def run_pmuldiv(ctx, cases=None):
+    batch, lines = [], []
+    for c in (cases if cases is not None else pmuldiv_cases(ctx)):
+        line, status, postl, problems = run_pmuldiv_case(c)
+        batch.append((c, status, postl, problems))
+        lines.append(line)
+    outs = core.run_driver('C01', lines)
+    for (c, status, postl, problems), ans, line in zip(batch, outs, lines):
+        desc = {'kind': 'pmuldiv', 'space': c['space'], 'f': c['f'], 'alias': c['alias'],
+                'line': line[:300]}
+        ctx.case(('pmuldiv', c['space'], c['f'], c['alias'])
+                 if postl and any(v != (0, 0) for q in postl for v in q) else None)
+        ctx.hit('pmuldiv/{}/{}/{}'.format(c['f'], c['alias'], 'product' if c['product'] else 'tensor'))
+        if problems:
+            ctx.violation('space.{} out= space={} alias={}'.format(
+                'multiply' if c['f'] == 'mul' else 'divide', c['space'], c['alias']),
+                '; '.join(problems)[:400], desc)
+        if status != 'ok' or not ans.startswith('ok bufs='):
+            if status == 'ok' or ans.startswith('ok'):
+                ctx.disagree(desc, status, ans[:200])
+            continue
+        mv = [parse_cl(t) for t in ans[len('ok bufs='):].split('|')]
+        if mv != postl:
+            ctx.disagree(desc, [q[:4] for q in postl], [q[:4] for q in mv])
 
 
 # ---------------------------------------------------------------------------
@@ -1426,9 +1582,10 @@ def run(ctx, deep=False):
             ctx.disagree(desc, R[:6], mv[:6])
     # --- statement-level model of the operators (Model/ElemOps.lean) vs the real code
     sbatch, slines = [], []
-    for c in elem_cases(ctx):
+    for c in itertools.chain(elem_cases(ctx), bcasto_extra_cases(ctx)):
         X = exact_list(flat(c['x']))
         Y = exact_list(flat(c['y']))
+        bo = None
         if c['op'] in BCAST_OP:
             # in-place power-space broadcasting: the loop over the parts with the extracted
             # copy guard (Model/ElemOps.lean::bcastInPlace, Gen/Broadcast.lean)
@@ -1437,11 +1594,23 @@ def run(ctx, deep=False):
             line = 'bcast op={} own={} n={} parts={}{}'.format(
                 BCAST_OP[c['op']], own, len(parts_pre[0]), '|'.join(lv(q) for q in parts_pre),
                 '' if own >= 0 else ' other=' + lv(Y))
+        elif c['op'] in BCASTO_OP:
+            # OUT-OF-PLACE power-space broadcasting (Model/ElemOps.lean::bcastOut): parts by
+            # object identity, so shared part objects are the same model buffer
+            distinct, ids = distinct_parts(c['x'])
+            own = next((k for k, q in enumerate(distinct) if q is c['y']), -1)
+            dpre = [exact_list(flat(q)) for q in distinct]
+            bo = dict(distinct=distinct, ids=ids, own=own, dpre=dpre,
+                      shared=len(distinct) < len(ids))
+            line = 'bcasto op={} own={} n={} ids={} parts={}{}'.format(
+                BCASTO_OP[c['op']], own, len(dpre[0]), ','.join(str(k) for k in ids),
+                '|'.join(lv(q) for q in dpre), '' if own >= 0 else ' other=' + lv(Y))
         else:
             line = stmt_line(c, X, Y, fval(c['c']))
         if line is None:
             continue
         in_place = c['op'].startswith('i') or c['op'] in ('assign', 'set_zero')
+        RP = None
         try:
             res = c['action'](c['x'], c['y'], c['c'])
             R = exact_list(flat(res))
@@ -1449,17 +1618,56 @@ def run(ctx, deep=False):
             YP = exact_list(flat(c['y']))
             if c['op'] in BCAST_OP:
                 XP = [exact_list(flat(part)) for part in c['x']]
+            if bo is not None:
+                XP = [exact_list(flat(q)) for q in bo['distinct']]
+                RP = [exact_list(flat(part)) for part in res]
+                bo['res'] = res
             status = 'ok'
         except Exception as e:  # noqa
-            status = 'err:' + type(e).__name__
+            status = 'err:' + type(e).__name__ + ':' + str(e)[:120]
             R = XP = YP = None
-        sbatch.append((c, status, R, XP, YP))
+        if bo is not None:
+            # oracle of the new stream, independent of the model: every result part is the
+            # entry-wise formula of (part, other) from the PRE-state, no operand changed, the
+            # result is a new element that shares no part object / memory with an operand
+            problems = []
+            key = 'bcast-out op={} space={} other={} parts={}'.format(
+                c['op'], c['space'], 'own-part' if bo['own'] >= 0 else 'external',
+                'shared' if bo['shared'] else 'distinct')
+            if status != 'ok':
+                problems.append(status)
+            else:
+                for k, pid_ in enumerate(bo['ids']):
+                    if RP[k] != oracle_elem(c['spec'], bo['dpre'][pid_], Y, (0, 0), (0, 0)):
+                        problems.append('part {} of the result is not {}(part, other) entry-wise: '
+                                        'got {}'.format(k, c['spec'], RP[k][:4]))
+                if XP != bo['dpre']:
+                    problems.append('a part of the left operand was modified')
+                if YP != Y:
+                    problems.append('the broadcast operand was modified')
+                try:
+                    if any(rp is q for rp in bo['res'] for q in bo['distinct'] + [c['y']]) or \
+                            any(np.shares_memory(np.asarray(rp), np.asarray(q))
+                                for rp in bo['res'] for q in bo['distinct'] + [c['y']]):
+                        problems.append('a result part is / shares memory with an operand part')
+                except Exception as e:  # noqa
+                    problems.append('result parts not inspectable: ' + type(e).__name__)
+            if problems:
+                ctx.violation(key, '; '.join(problems)[:500],
+                              {'kind': 'bcasto', 'space': c['space'], 'op': c['op'],
+                               'line': line[:400]})
+        sbatch.append((c, status, R, XP, YP, RP, bo))
         slines.append(line)
     souts = core.run_driver('C01', slines)
-    for (c, status, R, XP, YP), ans, line in zip(sbatch, souts, slines):
+    for (c, status, R, XP, YP, RP, bo), ans, line in zip(sbatch, souts, slines):
         desc = {'kind': 'elem-stmt', 'space': c['space'], 'op': c['op'], 'line': line[:300]}
-        ctx.case(('stmt', c['space'], c['op']) if R and any(v != (0, 0) for v in R) else None)
-        if line.startswith('bcast'):
+        ctx.case(('stmt', c['space'], c['op']) + ((bo['own'] >= 0, bo['shared']) if bo else ())
+                 if R and any(v != (0, 0) for v in R) else None)
+        if line.startswith('bcasto'):
+            ctx.hit('stmt/bcasto/{}/{}/{}'.format(BCASTO_OP[c['op']],
+                                                  'own-part' if bo['own'] >= 0 else 'external',
+                                                  'shared' if bo['shared'] else 'distinct'))
+        elif line.startswith('bcast'):
             ctx.hit('stmt/bcast/{}/{}'.format(line.split()[1], 'own-part' if 'own=-1' not in line
                                               else 'external'))
         else:
@@ -1469,6 +1677,13 @@ def run(ctx, deep=False):
                 ctx.disagree(desc, status, ans[:200])
             continue
         f = dict(t.split('=', 1) for t in ans.split()[1:])
+        if line.startswith('bcasto'):
+            if [parse_cl(t) for t in f['res'].split('|')] != RP or \
+                    [parse_cl(t) for t in f['parts'].split('|')] != XP or \
+                    parse_cl(f['other']) != YP:
+                ctx.disagree(desc, {'res': [q[:4] for q in RP], 'parts': [q[:4] for q in XP],
+                                    'other': YP[:4]}, ans[:300])
+            continue
         if line.startswith('bcast'):
             if [parse_cl(t) for t in f['parts'].split('|')] != XP or parse_cl(f['other']) != YP:
                 ctx.disagree(desc, {'parts': [q[:4] for q in XP], 'other': YP[:4]}, ans[:300])
@@ -1480,6 +1695,7 @@ def run(ctx, deep=False):
         if parse_cl(f['res']) != R or parse_cl(f['x']) != XP or \
                 (c['y'] is not c['x'] and parse_cl(f['y']) != YP):
             ctx.disagree(desc, {'res': R[:6], 'x': XP[:6], 'y': YP[:6]}, ans[:300])
+    run_pmuldiv(ctx)
     # --- malformed calls
     run_front(ctx)
     run_front_muldiv(ctx)
@@ -1525,13 +1741,21 @@ def search(ctx, broken):
                 ctx.violation('lincomb regime={} dtype={} layout={} alias={} a={} b={}'.format(
                     regime_of(c['size'], small, medium), c['dtype'], c['layout'], c['alias'],
                     c['ca'], c['cb']), '; '.join(problems)[:500], desc)
-        for c in elem_cases(ctx):
+        for c in itertools.chain(elem_cases(ctx), bcasto_extra_cases(ctx)):
             line, status, R, problems, nontrivial = run_elem_case(c)
             ctx.evaluations += 1
             if problems:
                 ctx.violation('elem op={} space={}'.format(c['op'], c['space']),
                               '; '.join(problems)[:500], {'kind': 'elem', 'space': c['space'],
                                                           'op': c['op']})
+        for c in pmuldiv_cases(ctx):
+            line, status, postl, problems = run_pmuldiv_case(c)
+            ctx.evaluations += 1
+            if problems:
+                ctx.violation('space.{} out= space={} alias={}'.format(
+                    'multiply' if c['f'] == 'mul' else 'divide', c['space'], c['alias']),
+                    '; '.join(problems)[:400], {'kind': 'pmuldiv', 'space': c['space'],
+                                                'f': c['f'], 'alias': c['alias']})
     finally:
         ctx.tier = saved
 
@@ -1551,6 +1775,20 @@ def replay(ctx, case):
             c['a'], c['b'] = int(c['a']), int(c['b'])
         _, status, _, problems, _ = run_lincomb_case(c, small, medium)
         return '; '.join(problems) if problems else None
+    if case.get('kind') == 'pmuldiv':
+        for c in pmuldiv_cases(ctx):
+            if (c['space'], c['f'], c['alias']) == (case['space'], case['f'], case['alias']):
+                _, status, _, problems = run_pmuldiv_case(c)
+                if problems:
+                    return '; '.join(problems)
+        return None
+    if case.get('kind') == 'bcasto':
+        for c in itertools.chain(elem_cases(ctx), bcasto_extra_cases(ctx)):
+            if c['space'] == case['space'] and c['op'] == case['op']:
+                _, status, R, problems, _ = run_elem_case(c)
+                if problems:
+                    return '; '.join(problems)
+        return None
     if case.get('kind') == 'elem':
         for c in elem_cases(ctx):
             if c['space'] == case['space'] and c['op'] == case['op']:
